@@ -127,6 +127,7 @@ func propRegistry() map[string]PropSpec {
 			{Pkg: "cache", Fn: "Harness_C04_cacheable_establishes", Init: initCache, Reach: []string{"C04.cacheable.end"}, EngineOnly: true},
 			{Pkg: "cache", Fn: "Harness_C04_get_step", Init: initCache, Reach: []string{"C04.get.hit", "C04.get.expired"}, EngineOnly: true},
 			{Pkg: "cache", Fn: "Harness_C04_age", Init: initCache, Reach: []string{"C04.age.end"}},
+			{Pkg: "cache", Fn: "Harness_C04_hit_after_lock_wait", Init: initCache, Reach: []string{"C04.lockwait.hit", "C04.lockwait.expired"}, EngineOnly: true},
 			{Pkg: "server", Fn: "Harness_MW_cache", Init: []string{"util", "store", "compress", "cache", "location", "upstream", "server"}, Reach: []string{"MW.second.hit"}},
 			{Pkg: "cache", Fn: "Harness_C08_cacheable_restart", Init: initCache, Reach: []string{"C08.restart.expired", "C08.restart.restored"}},
 		},
@@ -134,7 +135,7 @@ func propRegistry() map[string]PropSpec {
 		Assumptions: []string{
 			"clock: every read returns an arbitrary value >= the previous one, 1 <= now < 2^62 (a clock stepping backwards is outside the claim)",
 			"'obtained' is the clock value read by Cacheable when it stores the response",
-			"sequential: one request at a time (concurrent histories are covered by the BMC checks of C01/C02/C20)",
+			"sequential: one request at a time (concurrent histories are covered by the BMC checks of C01/C02/C20); contention on the entry lock is modelled as time passing at the moment the lock is obtained (Harness_C04_hit_after_lock_wait: the hit decision and the Age must hold for the clock at that moment, not for a sample taken before the wait)",
 			"T >= 1 (any int64 for the hit/expiry step; T < 2^40 for the Age harness)",
 		},
 		Encoded: []string{"cache.(*httpCache).Get", "cache.(*httpCache).get", "cache.(*httpCache).Cacheable", "cache.(*httpCache).Age"},
@@ -147,6 +148,7 @@ func propRegistry() map[string]PropSpec {
 			{Pkg: "server", Fn: "Harness_C06_injective", Init: initServer, Reach: []string{"C06.injective.end"}, EngineOnly: true},
 			{Pkg: "server", Fn: "Harness_C06_methods", Init: initServer, Reach: []string{"C06.methods.end"}},
 			{Pkg: "cache", Fn: "Harness_C06_lookup", Init: initCache, Reach: []string{"C06.lookup.end"}, EngineOnly: true},
+			{Pkg: "cache", Fn: "Harness_C06_store_key", Init: initCache, Reach: []string{"C06.store-key.end"}},
 		},
 		Explanation: "Symbolic execution of the real server.getKey on two arbitrary requests (method, host, request-URI as symbolic byte strings): equal keys imply equal triples (injectivity), the key buffer is fresh and exactly sized. The shard lookup (real dispatcher, groupcache/lru and container/list from SSA) is run with the hash function uninterpreted, i.e. for every hash function and therefore every collision pattern, on two arbitrary keys with evictions (two zones of one entry).",
 		Assumptions: []string{
@@ -166,13 +168,14 @@ func propRegistry() map[string]PropSpec {
 			{Pkg: "cache", Fn: "Harness_C07_get_step", Init: initCache, Reach: []string{"C07.within-period", "C07.after-period"}, EngineOnly: true},
 			{Pkg: "cache", Fn: "Harness_C07_dispatcher_period", Init: initCache, Reach: []string{"C07.disp.end"}},
 			{Pkg: "cache", Fn: "Harness_C08_hitforpass_restart", Init: initCache, Reach: []string{"C08.hfp.lapsed", "C08.hfp.restored"}},
+			{Pkg: "server", Fn: "Harness_MW_pass_leaves_entry", Init: []string{"util", "store", "compress", "cache", "location", "upstream", "server"}, Reach: []string{"MW.pass.end", "MW.pass.nested"}},
 		},
 		BMC: []BMCSpec{
 			{Name: "entry3", Pkg: "cache", Fn: "Harness_BMC_entry3", Init: initCache, Only: []string{"C07.", "every-thread-completes"}},
 		},
-		Explanation: "Inductive step on the hit-for-pass marker: for an arbitrary marker (set at any time, any period 1..2^40, with or without a stale response) and any later clock value, one Get() forwards the request (status hitForPass, no response, no queueing, marker untouched) while the period runs, and turns into the single probe (fetching) afterwards; the probe's outcome makes the key cacheable or marks it again. HitForPass(p) uses p seconds, 300 when p <= 0. Concurrent bursts are decided by the BMC systems (C01/C02).",
+		Explanation: "Inductive step on the hit-for-pass marker: for an arbitrary marker (set at any time, any period 1..2^40, with or without a stale response) and any later clock value, one Get() forwards the request (status hitForPass, no response, no queueing, marker untouched) while the period runs, and turns into the single probe (fetching) afterwards; the probe's outcome makes the key cacheable or marks it again. HitForPass(p) uses p seconds, 300 when p <= 0. At the middleware (real server.NewCache): a request forwarded as hit-for-pass, whatever its outcome and whatever another request did to the key while it was at the upstream (sequentialised: the other request runs inside its downstream call), leaves the entry byte-for-byte as it was, so the period does not slide with traffic and a straggler cannot undo a fresh hit. Concurrent bursts are decided by the BMC systems (C01/C02).",
 		Assumptions: []string{"free non-decreasing 64-bit clock", "period < 2^40 seconds", "sequential step; a request that would be queued shows up as a blocked path (no-deadlock)", "with a store: faithful lazy-TTL store (C08)"},
-		Encoded:     []string{"cache.(*httpCache).Get", "cache.(*httpCache).get", "cache.(*httpCache).HitForPass", "cache.(*httpCache).Cacheable", "cache.(*dispatcher).GetHitForPass", "cache.NewDispatcher"},
+		Encoded:     []string{"cache.(*httpCache).Get", "cache.(*httpCache).get", "cache.(*httpCache).HitForPass", "cache.(*httpCache).Cacheable", "cache.(*dispatcher).GetHitForPass", "cache.NewDispatcher", "server.NewCache"},
 		Bounds:      map[string]string{"period": "1..2^40 s, configured value any int (<=0 => 300)", "clock": "64-bit free"},
 	})
 
@@ -335,15 +338,16 @@ func propRegistry() map[string]PropSpec {
 	add(PropSpec{
 		ID: "C17",
 		Harnesses: []HarnessSpec{
+			{Pkg: "server", Fn: "Harness_C17_apply_resolves", Init: initServer, Reach: []string{"C17.applied.end", "C17.applied.server"}},
 			{Pkg: "config", Fn: "Harness_C17_validate", Init: []string{"util", "config"}, Reach: []string{"C17.accepted", "C17.rejected"}},
 		},
 		Explanation: "Partial: symbolic execution of the real (*PikeConfig).Validate cross-reference loops on configurations with 1-2 upstreams, 1-2 locations, 0-1 caches, 0-1 compress profiles and a server with 0-2 location names, every name a symbolic letter (so dangling, duplicate and unset references all occur). Accepted => every location names an existing upstream and the server names existing locations, cache and compress profile; every closed, well-formed configuration is accepted. The reflection-driven struct validator is a stub whose contract (required / gt=0 / dive) is read from the struct tags of the current config.go at run time.",
 		Assumptions: []string{
 			"go-playground/validator implements its documented tags; only required, gt=0 and dive are modelled, string well-formedness tags (xName, xDuration, url, hostname, ...) are library predicates outside the claim",
 			"'saving then reading returns the same configuration' and YAML quoting (gopkg.in/yaml.v2, reflection-driven) are outside the claim",
-			"that an accepted configuration resolves at run time is the registries' part (C16) and NewProxy's look-ups (C15)",
+			"that an accepted configuration resolves at run time: Harness_C17_apply_resolves applies two closed configurations in sequence through cache.ResetDispatchers / location.Reset / server.Reset (as main.update does; compress and upstream registries are C16's and C19's) and requires every configured server to find its dispatcher and a location; the request path itself is C15",
 		},
-		Encoded: []string{"config.(*PikeConfig).Validate"},
+		Encoded: []string{"config.(*PikeConfig).Validate", "server.(*servers).Reset", "server.(*server).Update", "cache.ResetDispatchers", "location.(*Locations).Set"},
 		Bounds:  map[string]string{"configuration": "<=2 upstreams, <=2 locations, <=1 cache, <=1 compress profile, 1 server with <=2 location names; names are symbolic letters a..c or unset"},
 	})
 
